@@ -96,6 +96,8 @@ def replay_matrix(case):
             co = k.get_coefficient_matrix(levels, reduced_rank=True)
             chk("coefficient matrix (dense)", close(co.values, I), co.values.tolist(), I.tolist())
             chk("coefficient matrix (sparse)", close(dense(k.get_coefficient_matrix(levels, reduced_rank=True, sparse=True)), I))
+            sp = k.get_coefficient_matrix(levels, reduced_rank=True, sparse=True)
+            chk("coefficient matrix (sparse) is a sparse n x n matrix", hasattr(sp, "toarray") and tuple(sp.shape) == (n, n), type(sp).__name__ + str(getattr(sp, "shape", "")), (n, n))
             chk("coefficient matrix inverts [1|coding]", close(co.values @ numpy.hstack([numpy.ones((n, 1)), C]), numpy.eye(n)))
             chk("coefficient matrix of the full coding is the identity", close(k.get_coefficient_matrix(levels, reduced_rank=False).values, numpy.eye(n)))
             names = [levels[j - 1] for j in case["collevels"]]
@@ -182,6 +184,37 @@ def replay_encode(case):
                             bad.append({**base, "output": output, "reduced": reduced, "why": "data-mismatch warning", "observed": warned})
                     except Exception as e:  # noqa
                         bad.append({**base, "output": output, "reduced": reduced, "why": "exception", "observed": type(e).__name__ + ": " + str(e)[:150]})
+            # Contrasts.apply on the indicator matrix itself, in each container its signature names
+            if zero_as == "null":
+                import scipy.sparse as sps
+
+                ind = numpy.array([[1.0 if l == j + 1 else 0.0 for j in range(n)] for l in li]).reshape(len(li), n)
+                for cname, dummies in (("numpy", ind), ("pandas", pandas.DataFrame(ind, columns=levels)), ("sparse", sps.csc_matrix(ind))):
+                    for reduced, exp in ((True, red), (False, full)):
+                        cnt += 1
+                        try:
+                            enc = k.apply(dummies, levels=levels, reduced_rank=reduced)
+                            arr = dense(enc) if cname == "sparse" else numpy.asarray(enc, dtype=float)
+                            if not close(arr.reshape(exp.shape) if arr.size == exp.size else arr, exp):
+                                bad.append({**base, "output": cname, "reduced": reduced, "why": "apply(indicator matrix) = indicator . coding", "observed": arr.tolist(), "expected": exp.tolist()})
+                        except Exception as e:  # noqa
+                            bad.append({**base, "output": cname, "reduced": reduced, "why": "exception in apply(indicator matrix)", "observed": type(e).__name__ + ": " + str(e)[:150]})
+            # through a formula on an Arrow table (narwhals materializer, its default output), complete data only
+            if lname == "strings" and zero_as == "null" and 0 not in li:
+                cnt += 1
+                try:
+                    import pyarrow
+                    import narwhals.stable.v1 as nw
+
+                    f = f"C(x, {expr(o, levels)}, levels={levels!r})"
+                    with warnings.catch_warnings():
+                        warnings.simplefilter("ignore")
+                        mm = model_matrix(f, pyarrow.table({"x": data}), context={})
+                    arr = nw.from_native(mm, eager_only=True).to_numpy().astype(float)[:, 1:]
+                    if not close(arr.reshape(red.shape) if arr.size == red.size else arr, red):
+                        bad.append({**base, "why": "model_matrix with C(...) on an Arrow table", "formula": f, "observed": arr.tolist(), "expected": red.tolist()})
+                except Exception as e:  # noqa
+                    bad.append({**base, "why": "exception in model_matrix on an Arrow table", "observed": type(e).__name__ + ": " + str(e)[:150]})
             # through a formula
             if lname == "strings":
                 cnt += 1
@@ -270,7 +303,7 @@ def replay_case(case):
 def run(ctx: Ctx) -> None:
     ctx.rule = ("matrices: n = 1..MaxN x {treatment with every base, SAS, sum, Helmert x reverse x scale, difference x direction} x 3 labelings; polynomial: "
                 "n = 2..5 with default and non-default scores; encoding: n = 1..3 x every option x every data vector of length <= 3 over levels + "
-                "{null/unseen} x 2 labelings x 3 outputs x reduced/full and through model_matrix; non-trivial = n >= 3")
+                "{null/unseen} x 2 labelings x 3 outputs x reduced/full, through Contrasts.apply on numpy / pandas / sparse indicator matrices, and through model_matrix on pandas frames and Arrow tables; non-trivial = n >= 3")
     ctx.trusted = ["sqrt taken by the harness for the polynomial normalisation", "float comparison at 1e-10 relative", "TLC", "Rat.tla (TLC reports integer overflow)"]
     out = workdir("c11") / "cases.ndjson"
     out.unlink(missing_ok=True)
